@@ -138,10 +138,13 @@ BackendCall(cfg, o, cls) ==
     IN IF cls = C_OK /\ IsRequest(o) /\ (Has(f.opts, O_WS16) <=> cfg.mem16) /\ f.bs[1] = 0
        THEN <<IF f.type = T_RREQ THEN 0 ELSE 1>> \o f.addr \o <<f.bs[2]>> \o PayloadOf(o)
        ELSE <<>>
-(* read of n words: must be refused with transmit-overflow when it cannot fit behind the request's header in
-   the block; must be served when it fits with a full header's room to spare; in between either (R4) *)
-ReadFits(cfg, o) == Fields(o).bs[1] = 0 /\ Fields(o).bs[2] * WordSize(Fields(o).opts) <= cfg.cap - 16
-ReadTooBig(cfg, o) == Fields(o).bs[1] > 0 \/ Fields(o).bs[2] * WordSize(Fields(o).opts) > cfg.cap - 12
+(* read of n words: the answer is built behind the request's own header inside the receive block, so it fits exactly when
+   n words are no more than the block less that header (12 octets plus two for each checksum word the request carries);
+   otherwise the request is refused with transmit-overflow and memory is not touched.  (The model first allowed either
+   answer within four octets of the limit; a seeded change that refused the exact fit showed that tolerance to be too wide
+   for "a read whose answer cannot fit".) *)
+ReadFits(cfg, o) == Fields(o).bs[1] = 0 /\ Fields(o).bs[2] * WordSize(Fields(o).opts) <= cfg.cap - HeaderLen(Fields(o).opts)
+ReadTooBig(cfg, o) == ~ReadFits(cfg, o)
 
 (* ------------------------------------------------------------------ unframing one unit from a stream *)
 RECURSIVE Unslip(_, _)
